@@ -10,6 +10,10 @@ package main
 //	plain       `sleep 30`                              ends at once, canceled
 //	ignoreterm  `trap "" TERM; sleep 8`, MaxCleanUpTime=1s  must be force-killed: the run ends ~1 s (+ poll) after the stop
 //	group       `sleep 30 & echo $! > pidfile; wait`    the forked child must not survive the stop
+//	orphan      `sleep 12 & echo $! > pidfile; exit 0`  the shell has exited, its background child still holds the step's
+//	                                                    output (the step is still running: Wait blocks until the pipe
+//	                                                    closes); the stop arrives after the shell's exit: the signal
+//	                                                    must still reach the process group - the run ends, the child is gone
 import (
 	"context"
 	"fmt"
@@ -65,6 +69,8 @@ func runAgentStop(work string, k int, sub string, sleepS, cleanupS int) AgentSto
 		body = fmt.Sprintf("trap '' TERM\necho x > %s\nsleep %d", marker, sleepS)
 	case "group":
 		body = fmt.Sprintf("sleep %d &\necho $! > %s\necho x > %s\nwait", sleepS, pidfile, marker)
+	case "orphan":
+		body = fmt.Sprintf("sleep %d &\necho $! > %s\necho x > %s\nexit 0", sleepS, pidfile, marker)
 	}
 	if err := writeScript(script, body); err != nil {
 		res.Infra = err.Error()
@@ -97,6 +103,9 @@ func runAgentStop(work string, k int, sub string, sleepS, cleanupS int) AgentSto
 	}
 	if !res.Started {
 		res.Infra = "the step's process never started"
+	}
+	if sub == "orphan" { // let the shell exit (and be reaped) first
+		time.Sleep(400 * time.Millisecond)
 	}
 	t0 := time.Now()
 	sigDone := make(chan struct{})
@@ -161,7 +170,8 @@ func agentStopMain(outPath, work string) {
 		sub             string
 		sleepS, cleanup int
 	}
-	jobs := []job{{"plain", 30, 5}, {"group", 30, 5}, {"ignoreterm", 9, 1}, {"plain", 30, 1}, {"group", 30, 1}, {"ignoreterm", 9, 1}}
+	jobs := []job{{"plain", 30, 5}, {"group", 30, 5}, {"ignoreterm", 9, 1}, {"plain", 30, 1}, {"group", 30, 1}, {"ignoreterm", 9, 1},
+		{"orphan", 12, 5}, {"orphan", 12, 1}}
 	res := make([]AgentStop, len(jobs))
 	var wg sync.WaitGroup
 	for k, j := range jobs {
